@@ -700,4 +700,96 @@ theorem Ext.step {s1 sA : State τ} {k : Nat} {o : OpInfo τ} {ys : List τ}
       rw [hget, if_neg (hargs b hb)]
     · exact hp
 
+/-! ## The main induction over `forwardRec` -/
+
+/-- what one (recursive) forward call from `s` for the nodes `tops` guarantees about
+the state `s'` it reaches, `l` being the operators it evaluated -/
+structure FwdPost (s : State τ) (tops : List Addr) (s' : State τ) (l : List Nat) : Prop where
+  ext : Ext s s' l
+  anc : ∀ k ∈ l, ∃ b ∈ tops, Anc s k b.oid
+
+/-- on success every non-parameter ancestor of the requested nodes is evaluated -/
+def FwdDone (s : State τ) (tops : List Addr) (s' : State τ) : Prop :=
+  ∀ b ∈ tops, ∀ k, Anc s k b.oid → s.isParam k = false → s'.evaluated k
+
+structure FwdSpec (s : State τ) (a : Addr) (res : State τ × Except Err τ) : Prop where
+  post : ∃ l, FwdPost s [a] res.1 l
+  nocrash : res.2 ≠ .error .crash
+  ok : ∀ v, res.2 = .ok v → res.1.valueOf? a = some v ∧ FwdDone s [a] res.1
+
+structure ArgsSpec (s : State τ) (bs : List Addr) (res : State τ × Except Err (List τ)) : Prop where
+  post : ∃ l, FwdPost s bs res.1 l
+  nocrash : res.2 ≠ .error .crash
+  ok : ∀ vs, res.2 = .ok vs → bs.mapM res.1.valueOf? = some vs ∧ FwdDone s bs res.1
+
+theorem Ext.anc {s s' : State τ} {l : List Nat} (h : Ext s s' l) : Anc s' = Anc s := by
+  unfold Anc; rw [h.argsOf]
+
+theorem forwardArgs_spec (ev : State τ → Addr → State τ × Except Err τ) (fuel : Nat)
+    (hev : ∀ s b, WF s → s.validAddr b = true → b.oid < fuel → FwdSpec s b (ev s b))
+    (s : State τ) (bs : List Addr) (w : WF s)
+    (hbs : ∀ b ∈ bs, s.validAddr b = true ∧ b.oid < fuel) :
+    ArgsSpec s bs (forwardArgsWith ev s bs) := by
+  induction bs generalizing s with
+  | nil =>
+    refine ⟨⟨[], Ext.refl s, by simp⟩, by simp [forwardArgsWith], ?_⟩
+    intro vs h
+    simp only [forwardArgsWith, Except.ok.injEq] at h
+    subst h
+    exact ⟨rfl, by simp [FwdDone]⟩
+  | cons b rest ih =>
+    have hb := hbs b List.mem_cons_self
+    have sp := hev s b w hb.1 hb.2
+    unfold forwardArgsWith
+    cases h1 : ev s b with
+    | mk s1 r1 =>
+      rw [h1] at sp
+      obtain ⟨⟨l1, p1⟩, nc1, ok1⟩ := sp
+      simp only at p1 nc1 ok1
+      cases r1 with
+      | error e =>
+        show ArgsSpec s (b :: rest) (s1, Except.error e)
+        refine ⟨⟨l1, p1.ext, ?_⟩, (by intro h; injection h with h; subst h; exact nc1 rfl), by simp⟩
+        intro k hk
+        obtain ⟨b', hb', ha⟩ := p1.anc k hk
+        simp only [List.mem_singleton] at hb'; subst hb'
+        exact ⟨b', List.mem_cons_self, ha⟩
+      | ok v =>
+        obtain ⟨hv, hd1⟩ := ok1 v rfl
+        have w1 := p1.ext.wf w
+        have sp2 := ih s1 w1 (fun b' hb' => by
+          rw [p1.ext.validAddr]; exact hbs b' (List.mem_cons_of_mem _ hb'))
+        simp only
+        cases h2 : forwardArgsWith ev s1 rest with
+        | mk s2 r2 =>
+          rw [h2] at sp2
+          obtain ⟨⟨l2, p2⟩, nc2, ok2⟩ := sp2
+          simp only at p2 nc2 ok2
+          have hpost : FwdPost s (b :: rest) s2 (l1 ++ l2) := by
+            refine ⟨p1.ext.trans p2.ext, ?_⟩
+            intro k hk
+            rcases List.mem_append.1 hk with hk | hk
+            · obtain ⟨b', hb', ha⟩ := p1.anc k hk
+              simp only [List.mem_singleton] at hb'; subst hb'
+              exact ⟨b', List.mem_cons_self, ha⟩
+            · obtain ⟨b', hb', ha⟩ := p2.anc k hk
+              rw [p1.ext.anc] at ha
+              exact ⟨b', List.mem_cons_of_mem _ hb', ha⟩
+          cases r2 with
+          | error e => exact ⟨⟨_, hpost⟩, nc2, by simp⟩
+          | ok vs =>
+            refine ⟨⟨_, hpost⟩, by simp, ?_⟩
+            intro vs' hvs'
+            simp only [Except.ok.injEq] at hvs'
+            subst hvs'
+            obtain ⟨hm, hd2⟩ := ok2 vs rfl
+            refine ⟨?_, ?_⟩
+            · simp only [List.mapM_cons, p2.ext.valueOf_mono hv, hm]; rfl
+            · intro b' hb' k hk hp
+              rcases List.mem_cons.1 hb' with rfl | hb'
+              · exact (p2.ext.evaluated k).2 (.inl (hd1 b' List.mem_cons_self k hk hp))
+              · rw [← p1.ext.anc] at hk
+                rw [← p1.ext.isParam] at hp
+                exact hd2 b' hb' k hk hp
+
 end Primitiv.Graph
